@@ -16,6 +16,24 @@ CLAIMED = {
  "C07": ("Lean 4 proof (structural induction on the type model) + differential correspondence with the Go implementation",
          "Machine-checked theorems for all types of any depth: Equals is structural identity (hence an equivalence), conformance = equality up to optional annotations after filling placeholders, HasDynamicTypes = occurrence, annotation stripping idempotent and touching nothing else, type-JSON round trip at token-tree level. The model functions are transliterations of the Go methods and are diffed against /repo on every run, exhaustively for small types.",
          "DESIGN.md §6 C07", "byte-level JSON lexing is encoding/json's and is not modelled"),
+ "C10": ("Lean 4 proof (closed-form decision table of Function.Call/ReturnTypeForValues, for all specs and all callbacks) + differential correspondence with the Go implementation (spy callbacks, small scopes enumerated)",
+         "Machine-checked for every spec, every Type/Impl/RefineResult callback (arbitrary functions that may fail, panic or return junk) and every argument list: Impl runs only after Type succeeded and with its type; every argument the callbacks see satisfies the parameter contract (conformance, null, unknown, dynamic, marks at any depth); the outcome is exactly one row of the decision table (count error | ArgError naming the first offender by absolute index | short-circuit to an unknown of the checked type carrying exactly the unhandled marks | callback error | PanicError | conforming refined value with the unhandled marks); callback panics and non-conforming results become errors; a Go panic escapes iff the refinement builder refuses the result (recorded finding, proved as a counterexample). The model follows function.go branch for branch and is diffed against /repo on every run.",
+         "DESIGN.md §6 C10", "the documented obligation 'RefineResult must be true of the result' is a hypothesis (RefinerValid) of no_go_panic; without it the counterexample is the known finding"),
+ "C11": ("Lean 4 proof (call-protocol theorems instantiated over parameter tables regenerated from the built code; type-only prediction soundness under a monotonicity obligation, unconditional for statically typed functions) + exhaustive-by-function randomized search on the real stdlib + correspondence of the regenerated tables",
+         "PARTIAL. Proved for every stdlib function (parameter tables and Type/RefineResult shapes are regenerated from /repo on every run) and for arbitrary callbacks: a successful result conforms to ReturnTypeForValues; with a monotone Type callback it also conforms to ReturnType(argument types), which then does not reject the call — unconditional for the functions declared with StaticReturnType; a Go panic can only come from the declared refinement refusing the result, and a PanicError only from the function's own callbacks panicking or returning a non-conforming value. NOT proved: that each function's own Type/Impl code never panics and that each dynamic Type callback is monotone — proved only where those callbacks are modelled (C13, C14), otherwise searched: every exported function x generated argument lists with nulls, unknowns, DynamicVal and marks injected at every position and depth.",
+         "DESIGN.md §6 C11", "totality of the per-function callbacks that are not modelled is search-only; third-party libraries (regexp, time, encoding/csv, fmt, strings) are not verified"),
+ "C14": ("Lean 4 proof (model = specification for cty's own arithmetic/position logic; library glue proved total relative to oracle answers) + differential correspondence with the Go implementation using the real libraries as oracle columns",
+         "PARTIAL. Machine-checked: ceil/floor/int/signum/abs/min/max/parseint characterised exactly on the big.Float model; arithmetic/comparison/logic wrappers equal the C02 operations; substr/strlen/reverse are take/drop/length/reverse on grapheme-cluster lists and never split a cluster; for the library-glue functions (upper, lower, title, trim*, replace, regexreplace, split, join, chomp, indent, formatdate, timeadd) the cty layer is modelled (argument order, NFC re-normalisation, error mapping) and proved to add no panic for any library answer; format: scanner, argument bookkeeping and cluster width/precision. The libraries themselves (strings, regexp, time, encoding/csv, fmt, math) are the reference in the property's own words and are oracle columns, not verified.",
+         "DESIGN.md §6 C14", "regex/regexall/csvdecode totality and format verbs needing type conversion are search-only; the ragel scanner is replaced by a hand-written scanner compared through whole-function correspondence"),
+ "C18": ("Lean 4 proof (induction over the Go value/type model of cty/gocty; exact integer and float decode characterisations) + differential correspondence with the Go implementation over a family of 51 Go types described by reflect",
+         "Machine-checked: decoding into any of the ten integer types succeeds iff the number is a whole number within the type's bounds and then stores exactly that number (bounds table proved); float decode characterised exactly incl. the float64 refusal threshold; any unmarked value into any target never panics; ToCtyValue at the implied type conforms to it; FromCtyValue(ToCtyValue(g, implied T)) = g by induction over all modelled shapes (primitives, slices, arrays, maps, pointers at any depth, tagged structs, big numbers, embedded cty.Value) under an explicit decidable side condition whose two excluded shapes are the recorded findings (each with a counterexample theorem).",
+         "DESIGN.md §6 C18", "reflect itself is not verified: Go types reach the model through a descriptor the harness derives with reflect; capsules, sets of non-primitive members and duplicate struct tags are unmodelled (skipped and counted)"),
+ "C04": ("Lean 4 proof (unmark/recurse/re-mark prologue shape of every operation method, re-extracted from the source; induction over payloads; call-protocol marks for all callbacks) + differential correspondence with the Go implementation",
+         "Machine-checked for all values, marks and operands: every one of the 18 operation methods commutes with deep unmarking (same outcome class, same unmarked result), keeps every top-level operand mark (and every nested mark where the code promises it: Equals, HasElement needle), and invents none; SetVal hoists member marks; Mark/Unmark/WithMarks/WithSameMarks/UnmarkDeepWithPaths+MarkWithPaths round trips; the conversion wrapper keeps and does not invent marks for every inner conversion; Function.Call puts every mark found anywhere in a non-AllowMarked argument on the result and, with no AllowMarked parameter, equals the call on unmarked arguments re-marked — for all callbacks. The marks prologue of each method is regenerated from cty/value_ops.go on every run and must equal the text the model assumes.",
+         "DESIGN.md §6 C04", "nested marks through convert and AllowMarked stdlib functions are searched (paired marked/unmarked runs of the real code), not proved"),
+ "C05": ("Lean 4 proof (refinement builder as a state machine, induction over call sequences; prefix theorems under an explicit law of the Unicode libraries that is probed every run) + differential correspondence with the Go implementation, small scopes enumerated",
+         "Machine-checked for all builder call sequences on all receivers: type preserved; Range() reports exactly what was recorded; refinement only narrows and is exactly 'previous AND new constraint' under an exact number comparison (the code compares numbers by decimal text: that gap is a recorded finding with counterexample theorems, as are exclusive infinite bounds); contradictions are rejected; collapse to known values (null, point range, fixed length); refining a known value is an assertion. SafeKnownPrefix returns a byte prefix of the NFC form that ends no later than the last normalisation boundary for ANY delimiter table, hence is continuation-safe given the stated stability law of x/text (a structure field, probed ~29k times per run); the delimiter table is regenerated from the source.",
+         "DESIGN.md §6 C05", "NFC and UAX#29 segmentation are the real libraries (oracle columns); ValueRange.Includes is diffed but has no theorem"),
 }
 NOT_YET = "machinery for this property is not built yet in this round (model slice, theorems and correspondence pending); see DESIGN.md §9 build order"
 
